@@ -61,6 +61,7 @@ class BG:
 LAYOUTS = [
     ("Layout: LayoutItem+;\nLayoutItem: WS | Comment;", "WS: /\\s+/;\nComment: /\\/\\/.*/;", [" ", "\n", " // c\n", "\t//x\n "]),
     ("Layout: LayoutItem*;\nLayoutItem: WS | Comment;", "WS: /\\s+/;\nComment: /#[^\\n]*/;", [" ", "\n", " # c\n", "#\n"]),
+    ("Layout: LayoutItem+ | EMPTY;\nLayoutItem: WS | Comment;", "WS: /\\s+/;\nComment: /\\/\\/.*/;", [" ", "\n", " // c\n", "\t//x\n "]),
     ("Layout: LayoutItem+;\nLayoutItem: WS | Comment;\nComment: CO Inner CC;\nInner: Inner Chunk | Inner Comment | EMPTY;",
      "WS: /\\s+/;\nCO: '/*';\nCC: '*/';\nChunk: /[^*\\/]+/;", [" ", "\n", " /* c */ ", "/* a /* n */ b */"]),
 ]
